@@ -155,10 +155,7 @@ def fit(version, v):
         if set(inner) <= names and req <= set(inner):
             cands.append((len(names), name, c))
     if cands:
-        try:
-            return min(cands)[2](**inner)
-        except Exception:  # noqa: BLE001 - a class that checks its values: leave the dict
-            return inner
+        return min(cands)[2](**inner)      # a data type that refuses a schema-valid value raises here: the caller reports it
     return inner
 
 
@@ -208,7 +205,7 @@ def _base(version):
 
 
 def run_loopback(version, action, request_obj, behave, suppress=False, skip=False, uid="a-id", async_validation=False,
-                 handler_async=True, route_skip=False):
+                 handler_async=True, route_skip=False, handler_delay=0, b_timeout=3):
     """A calls request_obj; B's handler for `action` records its keywords and does behave(kwargs) (returns a
     result object or raises). Returns dict(call, kwargs, reply, outcome)."""
     import ocpp.messages as M
@@ -218,18 +215,32 @@ def run_loopback(version, action, request_obj, behave, suppress=False, skip=Fals
 
     async def go():
         pipe = Pipe("ab", frames)
-        if handler_async:
+        if handler_async is True:
             async def handler(self, **kwargs):
                 seen["kwargs"] = copy.deepcopy(kwargs)
+                if handler_delay:
+                    await asyncio.sleep(handler_delay)
                 return behave(kwargs)
+        elif handler_async == "future":
+            # a plain function handing back a Task (adapters around thread pools / other transports do that)
+            def handler(self, **kwargs):
+                seen["kwargs"] = copy.deepcopy(kwargs)
+
+                async def later():
+                    await asyncio.sleep(0)
+                    return behave(kwargs)
+                return asyncio.ensure_future(later())
         else:
             def handler(self, **kwargs):
                 seen["kwargs"] = copy.deepcopy(kwargs)
                 return behave(kwargs)
         handler.__name__ = "handler"
-        Bcls = type("B", (_base(version),), {"handler": on(action, skip_schema_validation=route_skip)(handler)} if behave is not None else {})
+        # the handler is registered the way applications do it: through the member of the version's Action enumeration
+        # that carries the action's name (the plain string where there is none)
+        from harness import impl_dispatch as _D
+        Bcls = type("B", (_base(version),), {"handler": on(_D.enum_member(version, action), skip_schema_validation=route_skip)(handler)} if behave is not None else {})
         A = _base(version)("A", pipe.end("a"), response_timeout=3)
-        B = Bcls("B", pipe.end("b"), response_timeout=3)
+        B = Bcls("B", pipe.end("b"), response_timeout=b_timeout)
         ta, tb = asyncio.ensure_future(A.start()), asyncio.ensure_future(B.start())
         out = await call_outcome(A, request_obj, suppress, skip, uid)
         for t in (ta, tb):
